@@ -164,8 +164,18 @@ impl MatchLevel for &TopicFilterLevel {
 fn match_level_impl(
     subset_level: &TopicFilterLevel,
     superset_level: &TopicFilterLevel,
-    _index: usize,
+    index: usize,
 ) -> bool {
+    // [MQTT-4.7.2-1] wildcard in the first level does not cover `$` topics
+    if index == 0
+        && matches!(subset_level, TopicFilterLevel::System(_))
+        && matches!(
+            superset_level,
+            TopicFilterLevel::SingleWildcard | TopicFilterLevel::MultiWildcard
+        )
+    {
+        return false;
+    }
     match superset_level {
         TopicFilterLevel::Normal(rhs) => {
             matches!(subset_level, TopicFilterLevel::Normal(lhs) if lhs == rhs)
